@@ -66,9 +66,14 @@ POISONS = {
     # text the loader does not validate where it stands (a {tag} expression): outside the expression language or not parseable at all - it yields no tag,
     # for the first transaction and for every later one (only placed as a dynamic tag; elsewhere the loader rejects the file)
     'not-in-the-language': ['description[0:6]', 'amount ** 2 > 1', 'f"m"', '[amount][0]', '1 +', 'amount >> 1', 'amount +* 2', '~month', 'lambda: 1'],
+    # next(..., None) found nothing (no order for this purchase): reading a column of "nothing" has no value - under `!=` / `not` as little as under `==`
+    'attribute-of-nothing': ['next((r for r in rows if r.amt > 1e12), None).item != "returned"', 'not (next((r for r in orders if r.qty > 99), None).amt == 5)',
+                             'next((r for r in empty), None).amt != 1', 'next((r for r in rows if r.item == "zz-none"), None).qty not in [1]' if False else 'next((r for r in rows if r.item == "zz-none"), None).qty != 1'],
+    # a bare name that is not defined (for this transaction): as a condition, as a let / field value and as a {tag} it yields nothing - not its own spelling
+    'bare-unknown-name': ['nosuchname', 'reimbursable', 'project_code'],
     'falsy-non-number-divisor': ['amount / field.nope < 5', 'amount / "" < 5', 'amount % "" == 0', '10 / description.strip("abcdefghijklmnopqrstuvwxyzABCDEFGHIJKLMNOPQRSTUVWXYZ0123456789 .-*#\'") < 1'],
 }
-REF_DECIDES = {'failing-row-in-list-comprehension', 'unknown-name', 'falsy-non-number-divisor', 'division-type', 'arithmetic-on-strings', 'date-vs-blank-text'}
+REF_DECIDES = {'failing-row-in-list-comprehension', 'unknown-name', 'attribute-of-nothing', 'bare-unknown-name', 'falsy-non-number-divisor', 'division-type', 'arithmetic-on-strings', 'date-vs-blank-text'}
 POSITIONS = ['match-whole', 'match-and', 'match-or', 'let-extra', 'field-extra', 'tag-extra', 'transform', 'variable', 'let-shadows-global']
 
 VIEW_POISONS = ['sum(by("month")) > 100', 'category > 5', 'payments > 3', 'months + "x" > 1', 'nosuchvar > 1', 'total / category > 1',
